@@ -33,6 +33,7 @@ func init() {
 			Trusted:     commonTrusted,
 		},
 		Mutants: []Mutant{
+			{Name: "argument vector shared between nested calls (agent seed C14/2)", File: "eval.go", Old: "\targValues := make([]reflect.Value, numArgs)\n", New: "\tif cap(st.argBuf) < numArgs {\n\t\tst.argBuf = make([]reflect.Value, numArgs, numArgs+4)\n\t}\n\targValues := st.argBuf[:numArgs]\n", More: []Edit{{File: "eval.go", Old: "\tcontext reflect.Value\n}", New: "\tcontext reflect.Value\n\targBuf  []reflect.Value\n}"}}, Rule: "C14.count"},
 			{Name: "NumOfArguments counts the piped value even when a slot consumes it", File: "func.go", Old: "\tnum := len(a.args.Exprs)\n\tif a.pipedVal != nil && !a.args.HasPipeSlot {", New: "\tnum := len(a.args.Exprs)\n\tif a.pipedVal != nil {", Rule: "C14.shift"},
 			{Name: "Get does not shift the index for an implicit piped argument", File: "func.go", Old: "\t\tif argumentIndex == 0 {\n\t\t\treturn *a.pipedVal\n\t\t}\n\t\t// call has an implicit first argument, so we adjust the\n\t\t// index before looking it up in the parsed a.args slice\n\t\targumentIndex--", New: "\t\tif argumentIndex == 0 {\n\t\t\treturn *a.pipedVal\n\t\t}", Rule: "C14.shift"},
 			{Name: "evaluateArgs evaluates the underscore slot as an expression", File: "eval.go", Old: "\t\tif args.Exprs[i].Type() == NodeUnderscore {\n\t\t\tterm = *pipedArg\n\t\t} else {\n\t\t\tterm = st.evalPrimaryExpressionGroup(args.Exprs[i])\n\t\t}\n\t\tif !term.IsValid() {\n\t\t\treturn nil, fmt.Errorf(\"argument for position %d in %s is not a valid value\", slot, fnType)\n\t\t}\n\t\tif !term.Type().AssignableTo(in) {\n\t\t\tif !term.Type().ConvertibleTo(in) {\n\t\t\t\treturn nil, fmt.Errorf(\"argument for position %d in %s of type %s is not convertible to %s\", slot, fnType, term.Type(), in)\n\t\t\t}\n\t\t\tterm = term.Convert(in)\n\t\t}\n\t\targValues[slot] = term\n\t\ti++\n\t\tslot++\n\t}\n\n\tif isVariadic {", New: "\t\tterm = st.evalPrimaryExpressionGroup(args.Exprs[i])\n\t\tif !term.IsValid() {\n\t\t\treturn nil, fmt.Errorf(\"argument for position %d in %s is not a valid value\", slot, fnType)\n\t\t}\n\t\tif !term.Type().AssignableTo(in) {\n\t\t\tif !term.Type().ConvertibleTo(in) {\n\t\t\t\treturn nil, fmt.Errorf(\"argument for position %d in %s of type %s is not convertible to %s\", slot, fnType, term.Type(), in)\n\t\t\t}\n\t\t\tterm = term.Convert(in)\n\t\t}\n\t\targValues[slot] = term\n\t\ti++\n\t\tslot++\n\t}\n\n\tif isVariadic {", Rule: "C14.slot"},
@@ -527,6 +528,26 @@ func c14count(c *an.Ctx) {
 		})
 		return true
 	})
+	// evaluateArgs is re-entrant (evaluating an argument can call it again): the vector it fills must be its own
+	fresh := false
+	an.InspectOwn(f, func(n ast.Node) bool {
+		ret, isRet := n.(*ast.ReturnStmt)
+		if !isRet || len(ret.Results) != 2 {
+			return true
+		}
+		if id, isId := an.Unparen(ret.Results[0]).(*ast.Ident); isId && id.Name != "nil" {
+			defs := an.LocalDefs(f, an.ObjOf(info, id))
+			fresh = len(defs) > 0
+			for _, dd := range defs {
+				if dd == nil || an.CalleeName(info, callOf(dd)) != "builtin.make" {
+					fresh = false
+				}
+			}
+		}
+		return true
+	})
+	c.Check(fresh, "C14.count", "(*Runtime).evaluateArgs/fresh-vector", f.Pos(), "the argument vector is allocated per call (evaluateArgs is re-entrant through nested calls)",
+		"evaluateArgs fills an argument vector that is not freshly made in this activation: a nested call in a later argument overwrites the arguments already evaluated for the outer call")
 	c.Check(ok && okReq, "C14.count", "(*Runtime).evaluateArgs/arity", f.Pos(), "the argument count is compared with NumIn() (!=, or < for variadics) before any argument is evaluated", firstNonEmpty(why, "the required count is not taken from NumIn()"))
 }
 
